@@ -22,7 +22,7 @@ MANIFEST = {
           'forwarding exactly as FORWARD_ALL says. Pattern language: all names over {a,b,.} up to length 7 (9) against a '
           'regex-free reference matcher, with the name cache off / LRU 1,2 / TTL.',
   'note': 'Values are powers of two so that a sum identifies its operand set exactly. Future-dated datapoints and '
-          'two rules writing one aggregate are outside the alphabet (DESIGN.md I6). Also: infinities and overflowing sums (value-aware state merging), sub-second timestamps, a series named like a live aggregate, reloads that change the feeding pattern, sum/count pairs with the name memo.',
+          'two rules writing one aggregate are outside the alphabet (DESIGN.md I6). Also: infinities and overflowing sums (value-aware state merging), sub-second timestamps, a series named like a live aggregate, reloads that change the feeding pattern, sum/count pairs with the name memo. Buffer-width sweep: one interval holding n values for every n up to 130 (thorough 260; 1100 for p99/p999), every method, three arrival orders.',
 }
 
 F = 10
